@@ -17,12 +17,18 @@ if not ok:
 dst = os.path.join(HERE, 'seeded', name)
 os.makedirs(dst, exist_ok=True)
 for f in ('patch.diff', 'demo.py'):
-    shutil.copy(os.path.join(src, f), os.path.join(dst, f))
+    if os.path.abspath(src) != os.path.abspath(dst):
+        shutil.copy(os.path.join(src, f), os.path.join(dst, f))
 meta = json.load(open(os.path.join(src, 'meta.json')))
 meta['confirmed'] = {'applies': True, 'pinned_94_tests_pass_with_patch': True,
                      'demo_passes_on_clean_repo': True, 'demo_fails_with_patch': True,
                      'how': 'tools/try_seed.py: scratch copy of /repo + git apply; pytest on the 10 pinned modules; demo.py on clean and patched tree; ./check <ID> --tier quick with VERIF_REPO=<copy>'}
+prev = meta.get('checks', {})
 meta['checks'] = {k[6:]: {'detected': v['exit'] == 1, 'exit': v['exit'], 'first_violation': v['first']}
                   for k, v in res.items() if k.startswith('check_')}
+for k, v in prev.items():
+    if k in meta['checks'] and not v.get('detected') and meta['checks'][k]['detected']:
+        meta['checks'][k]['history'] = 'missed by the first version of the check (exit %s); detected after the check was strengthened' % v.get('exit')
+    meta['checks'].setdefault(k, v)
 json.dump(meta, open(os.path.join(dst, 'meta.json'), 'w'), indent=1)
 print('kept as', dst)
